@@ -54,6 +54,7 @@ func genStress(t *rapid.T) Stress {
 }
 
 type stressRun struct {
+	nonce    string
 	s        Stress
 	active   atomic.Int32
 	returned atomic.Bool
@@ -84,7 +85,7 @@ func checkStress(s Stress) error {
 		pbt.Note(key, false, "skipped-after-wedge")
 		return nil
 	}
-	r := &stressRun{s: s}
+	r := &stressRun{s: s, nonce: newNonce()}
 	srv := &dns.Server{ReadTimeout: time.Hour, IdleTimeout: func() time.Duration { return time.Hour }, Handler: dns.HandlerFunc(r.handler)}
 	overlapAny := false
 	for cycle := 0; cycle < s.Restarts; cycle++ {
@@ -219,15 +220,24 @@ func (r *stressRun) cycle(srv *dns.Server, cycle int) (overlap bool, err error) 
 			co := &dns.Conn{Conn: c}
 			for q := 1; q <= s.Reqs; q++ {
 				m := new(dns.Msg)
-				m.SetQuestion(fmt.Sprintf("q%d.c%d.y%d.test.", q, j, cycle), dns.TypeTXT)
+				m.SetQuestion(fmt.Sprintf("q%d.c%d.y%d.%s.test.", q, j, cycle, r.nonce), dns.TypeTXT)
 				if co.WriteMsg(m) != nil {
 					return
 				}
 				rep, e := co.ReadMsg()
+				isMem := s.Transport == "memTCP" || s.Transport == "memPacket"
+				for i := 0; e == nil && !isMem && !strings.Contains(replyToken(rep), r.nonce) && i < 8; i++ {
+					// not from this run's server: a loopback port just released by it (or by this
+					// client) now belongs to another process (see newNonce)
+					if strings.HasSuffix(s.Transport, "TCP") {
+						return
+					}
+					rep, e = co.ReadMsg()
+				}
 				if e != nil {
 					return // the server is going away; nothing is promised for requests it did not handle
 				}
-				if rep.Id != m.Id || len(rep.Answer) != 1 || rep.Answer[0].(*dns.TXT).Txt[0] != "tok-"+m.Question[0].Name {
+				if rep.Id != m.Id || replyToken(rep) != "tok-"+m.Question[0].Name {
 					mu.Lock()
 					bad = append(bad, fmt.Sprintf("client %d request %d received a foreign reply: %v", j, q, rep))
 					mu.Unlock()
